@@ -27,8 +27,8 @@ import (
 )
 
 var (
-	home = envOr("VERIF_HOME", "/verif")
-	repo = envOr("VERIF_REPO", "/repo")
+	home  = envOr("VERIF_HOME", "/verif")
+	repo  = envOr("VERIF_REPO", "/repo")
 	gobin = envOr("VERIF_GO", "go1.26.8")
 )
 
@@ -154,8 +154,9 @@ type known struct {
 }
 
 // KNOWN_FINDINGS.txt lines:
-//   fixed: property=<id> <commit> <what failed>
-//   open: property=<id> class=<class> key=<regex or -> <what fails>
+//
+//	fixed: property=<id> <commit> <what failed>
+//	open: property=<id> class=<class> key=<regex or -> <what fails>
 func loadKnown() []known {
 	f, err := os.Open(filepath.Join(home, "KNOWN_FINDINGS.txt"))
 	if err != nil {
@@ -372,7 +373,7 @@ func runCheck(id, tier string) int {
 				for k := 0; time.Now().Before(deadline); k++ {
 					j2 := map[string]any{"mode": "explore", "property": id, "tier": tier, "base_seed": seed, "worker": w, "workers": workers,
 						"budget_s": 3600, "max_runs": 1, "first_index": k * workers, "isolated": true,
-						"hash_out": filepath.Join(b.scratch, fmt.Sprintf("w%d-%d.hashes", w, k)),
+						"hash_out":   filepath.Join(b.scratch, fmt.Sprintf("w%d-%d.hashes", w, k)),
 						"replay_dir": replayDir, "known": knownFor(id, kn), "samples": 0}
 					if w == 0 && k < len(corpus) {
 						j2["corpus"], j2["max_runs"] = []string{corpus[k]}, -1 // the corpus plan only
@@ -393,6 +394,7 @@ func runCheck(id, tier string) int {
 	// aggregate
 	var harnessErrs []string
 	violations := map[string]record{}
+	alternates := map[string][]record{}
 	evals, nontrivial, stepCapped, inconcl, detC, detM, schedules := 0, 0, 0, 0, 0, 0, 0
 	var simNS, steps, switches float64
 	probes, faults, extra, knownSeen := map[string]int{}, map[string]int{}, map[string]int{}, map[string]int{}
@@ -413,6 +415,8 @@ func runCheck(id, tier string) int {
 				}
 				if _, ok := violations[c]; !ok {
 					violations[c] = m
+				} else if len(alternates[c]) < 3 {
+					alternates[c] = append(alternates[c], m) // other workers' findings of the same class
 				}
 			case "summary":
 				gotSummary = true
@@ -473,6 +477,18 @@ func runCheck(id, tier string) int {
 		v := violations[c]
 		path, _ := v["replay"].(string)
 		ok, detail := confirm(b, id, path, kn)
+		for _, alt := range alternates[c] {
+			if ok {
+				break
+			}
+			// the finding of another worker for the same class (a violation that leans on per-processor pool state or
+			// the garbage collector may not replay from every plan that showed it)
+			if ap, _ := alt["replay"].(string); ap != "" {
+				if ok2, _ := confirm(b, id, ap, kn); ok2 {
+					ok, v, path = true, alt, ap
+				}
+			}
+		}
 		if ok {
 			fmt.Printf("VIOLATION property=%s replay=%s\n", id, path)
 			fmt.Printf("  class=%s key=%q\n  %v\n", c, v["key"], oneLine(fmt.Sprint(v["detail"]), 600))
@@ -508,18 +524,18 @@ func runCheck(id, tier string) int {
 		"fault_counts_fired":  faults,
 		"probes":              probes,
 		"distinct_event_logs_summed_over_workers": schedules,
-		"components":          components,
-		"determinism":         map[string]any{"reexecuted": detC, "matched": detM},
-		"step_capped_runs":    stepCapped,
-		"inconclusive":        inconcl,
-		"known_findings_seen": knownSeen,
-		"extra":               extra,
+		"components":            components,
+		"determinism":           map[string]any{"reexecuted": detC, "matched": detM},
+		"step_capped_runs":      stepCapped,
+		"inconclusive":          inconcl,
+		"known_findings_seen":   knownSeen,
+		"extra":                 extra,
 		"unshimmed_api_present": b.unshimmed,
-		"dependency_files_repointed_notation_core_go": b.depShimmed,
+		"dependency_files_repointed_notation_core_go":         b.depShimmed,
 		"worker_slots_that_fell_back_to_one_plan_per_process": atomic.LoadInt32(&isolatedSlots),
-		"workers":             workers,
-		"build_s":             b.buildS,
-		"exhaustive":          false,
+		"workers":    workers,
+		"build_s":    b.buildS,
+		"exhaustive": false,
 	}
 	assumptions := []string{
 		"trusted base: Go 1.26.8 runtime (testing/synctest, testing/cryptotest), kernel tmpfs, notation-core-go, tspclient-go, oras-go, go-cose, crypto/*",
@@ -586,37 +602,51 @@ func confirm(b *built, id, path string, kn []known) (bool, string) {
 		json.Unmarshal(rf["history"], &hist)
 	}
 	detail := ""
-	tried := map[int]bool{}
-	for _, n := range []int{0, 1, 2, 4, 8, len(hist)} {
-		if n > len(hist) || tried[n] {
-			continue
-		}
-		tried[n] = true
-		job := map[string]any{"mode": "replay", "property": id, "plan": path, "known": knownFor(id, kn), "history_len": n}
-		r := runWorker(b, job, "confirm-"+filepath.Base(path), 5*time.Minute)
-		seen := false
-		for _, m := range r.records {
-			if m["type"] != "replay" {
+	for pass := 0; pass < 2; pass++ {
+		tried := map[int]bool{}
+		for _, n := range []int{0, 1, 2, 4, 8, len(hist)} {
+			if n > len(hist) || tried[n] {
 				continue
 			}
-			seen = true
-			if rep, _ := m["reproduced"].(bool); rep {
-				if rf != nil {
-					delete(rf, "history")
-					if n > 0 {
-						hb, _ := json.Marshal(hist[len(hist)-n:])
-						rf["history"] = hb
-					}
-					if out, err := json.MarshalIndent(rf, "", " "); err == nil {
-						os.WriteFile(path, out, 0644)
-					}
-				}
-				return true, ""
+			tried[n] = true
+			job := map[string]any{"mode": "replay", "property": id, "plan": path, "known": knownFor(id, kn), "history_len": n}
+			var r workerResult
+			if pass == 0 {
+				r = runWorker(b, job, "confirm-"+filepath.Base(path), 5*time.Minute)
+			} else {
+				// second pass: one processor and no garbage collection, under which sync.Pool hands back what was put
+				r = runWorkerEnv(b, job, "confirm1-"+filepath.Base(path), 5*time.Minute, "GOMAXPROCS=1", "GOGC=off")
 			}
-			detail = fmt.Sprintf("classes seen: %v", m["classes"])
-		}
-		if !seen {
-			return false, fmt.Sprintf("no replay record (%v) %s", r.err, oneLine(r.output, 500))
+			seen := false
+			for _, m := range r.records {
+				if m["type"] != "replay" {
+					continue
+				}
+				seen = true
+				if rep, _ := m["reproduced"].(bool); rep {
+					if rf != nil {
+						delete(rf, "history")
+						if n > 0 {
+							hb, _ := json.Marshal(hist[len(hist)-n:])
+							rf["history"] = hb
+						}
+						delete(rf, "replay_env")
+						if pass == 1 {
+							// the violation leans on sync.Pool handing back what was put: it replays on one processor
+							// with the collector off (the replay command reads this)
+							rf["replay_env"] = json.RawMessage(`["GOMAXPROCS=1","GOGC=off"]`)
+						}
+						if out, err := json.MarshalIndent(rf, "", " "); err == nil {
+							os.WriteFile(path, out, 0644)
+						}
+					}
+					return true, ""
+				}
+				detail = fmt.Sprintf("classes seen: %v", m["classes"])
+			}
+			if !seen {
+				return false, fmt.Sprintf("no replay record (%v) %s", r.err, oneLine(r.output, 500))
+			}
 		}
 	}
 	return false, detail
@@ -649,7 +679,16 @@ func runReplay(path string) int {
 	abs, _ := filepath.Abs(path)
 	kn := loadKnown()
 	job := map[string]any{"mode": "replay", "property": rf.Plan.Property, "plan": abs, "known": knownFor(rf.Plan.Property, kn), "history_len": -1}
-	r := runWorker(b, job, "replay", 10*time.Minute)
+	var renv struct {
+		Env []string `json:"replay_env"`
+	}
+	json.Unmarshal(raw, &renv)
+	var r workerResult
+	if len(renv.Env) > 0 {
+		r = runWorkerEnv(b, job, "replay", 10*time.Minute, renv.Env...)
+	} else {
+		r = runWorker(b, job, "replay", 10*time.Minute)
+	}
 	reproduced, knownHit := false, false
 	for _, m := range r.records {
 		switch m["type"] {
